@@ -618,6 +618,7 @@ class C13(TrackerProp):
         ops = TrackerProp.ops(self, rng, tier)
         for k in range(40 if tier == "quick" else 400): ops += gentrack.alias_history(rng)
         for k in range(30 if tier == "quick" else 300): ops += gentrack.wrap_history(rng)
+        for k in range(30 if tier == "quick" else 300): ops += gentrack.outbound_history(rng)
         return ops
 
 class C14(TrackerProp):
